@@ -26,9 +26,14 @@ int vp_m_unsupported;
 #define VP_MAXDEC 20   /* decimal digits emitted at most (harnesses may lower it with assumptions on values) */
 #endif
 
+/* Two cursors: *pos is the length the untruncated text needs (the return value; it becomes symbolic as soon as a
+ * symbolic-length "%s" argument is counted), vp_wc is where the next byte really goes (== min(*pos, size-1)). Keeping
+ * them apart keeps every store index a known constant for symex when the visible part of the text is concrete —
+ * a store at a symbolic index would turn the whole buffer into unknowns. */
+static size_t vp_wc;
 static void vp_put(char *buf, size_t size, size_t *pos, char c)
 {
-  if (buf && *pos + 1 < size) buf[*pos] = c;
+  if (buf && vp_wc + 1 < size) { buf[vp_wc] = c; vp_wc++; }
   (*pos)++;
 }
 
@@ -62,6 +67,7 @@ static void vp_put_unsigned(char *buf, size_t size, size_t *pos, unsigned long l
 int VPM(vsnprintf)(char *buf, size_t size, const char *fmt, va_list ap)
 {
   size_t pos = 0;
+  vp_wc = 0;
   for (; *fmt; fmt++) {
     if (*fmt != '%') { vp_put(buf, size, &pos, *fmt); continue; }
     fmt++;
@@ -83,9 +89,11 @@ int VPM(vsnprintf)(char *buf, size_t size, const char *fmt, va_list ap)
     case 'c': vp_put(buf, size, &pos, (char) va_arg(ap, int)); break;
 #endif
     case 's': { const char *s = va_arg(ap, const char *); if (!s) s = "(null)";
-                size_t l = 0; while (s[l] && (prec < 0 || l < (size_t) prec)) l++;
-                size_t k; for (k = l; k < (size_t) width; k++) vp_put(buf, size, &pos, ' ');
-                for (k = 0; k < l; k++) vp_put(buf, size, &pos, s[k]);
+                /* the copy loop tests the source bytes themselves, not a precomputed length: a length that depends on a
+                 * symbolic byte further on would put a symbolic guard on the copy of the concrete bytes before it */
+                size_t k;
+                if (width > 0) { size_t l = 0; while (s[l] && (prec < 0 || l < (size_t) prec)) l++; for (k = l; k < (size_t) width; k++) vp_put(buf, size, &pos, ' '); }
+                for (k = 0; s[k] && (prec < 0 || k < (size_t) prec); k++) vp_put(buf, size, &pos, s[k]);
                 break; }
     case 'i':
     case 'd': { long long v = lng >= 2 ? va_arg(ap, long long) : lng ? va_arg(ap, long) : va_arg(ap, int);
@@ -116,7 +124,7 @@ int VPM(vsnprintf)(char *buf, size_t size, const char *fmt, va_list ap)
       break;
     }
   }
-  if (buf && size > 0) buf[pos < size ? pos : size - 1] = '\0';
+  if (buf && size > 0) buf[vp_wc] = '\0';
   return (int) pos;
 }
 
